@@ -58,6 +58,10 @@ def c06(chk, thorough):
     nreg = threads.t3(chk, prog)
     chk.extra['dispatch_regions'] = nreg
     threads.t5(chk, prog)
+    from . import slices
+    sliced = {ent for (_, _, _, ent, _) in slices.dispatch_sites(prog)}
+    threads.t4(chk, prog, exempt_entries=sliced)
+    chk.floor('T4.argument-privacy', 8)
     if thorough:
         from . import irscan
         irscan.cross_check(chk, prog, sorted(prog.units))
